@@ -32,7 +32,7 @@ func c09BlsRef(c *wcurve.Curve) func([]byte) verifmc.DecOracle {
 }
 
 func c09BlsScheme[K bls.KeyGroup](r *verifmc.Run, name string, keyCurve, sigCurve *wcurve.Curve, k K) {
-	flip := r.Pick(2, 11)
+	flip := r.Pick(1, 11)
 	// ---- public keys
 	pkCases := c09ref.BLSCases(keyCurve, true, c09ref.BLSOptions{FlipBases: flip, AllAlias: r.Thorough()})
 	var sks []*bls.PrivateKey[K]
@@ -115,13 +115,13 @@ func c09BlsScheme[K bls.KeyGroup](r *verifmc.Run, name string, keyCurve, sigCurv
 func TestVerifC09_bls_keys(t *testing.T) {
 	r := verifmc.Start(t, "C09", "bls_keys")
 	defer r.Finish()
-	r.Rule("compressed G1/G2 alphabets of bls_g1/bls_g2 (flips of 2 quick / 11 thorough bases) plus the library's own keys and one honest signature with all its bit flips, " +
+	r.Rule("compressed G1/G2 alphabets of bls_g1/bls_g2 (flips of 1 quick / 11 thorough bases) plus the library's own keys and one honest signature with all its bit flips, " +
 		"given to PublicKey.UnmarshalBinary (re-marshal must equal the input, identity never validates), to Verify as the signature (whatever verifies must be a canonical member; a verifying string other than the honest signature is counted, C02 judges it) " +
 		"and to Aggregate of a single signature (output must equal the input), for KeyG1SigG2 and KeyG2SigG1; distinct = distinct (entry point, input bytes)")
 	c09BlsScheme[bls.KeyG1SigG2](r, "KeyG1SigG2", wcurve.BLS12381G1(), wcurve.BLS12381G2(), bls.G1{})
 	c09BlsScheme[bls.KeyG2SigG1](r, "KeyG2SigG1", wcurve.BLS12381G2(), wcurve.BLS12381G1(), bls.G2{})
-	r.RequireCounter("in:nonsubgroup", 100)
-	r.RequireCounter("in:flip", 6000)
+	r.RequireCounter("in:nonsubgroup", 70)
+	r.RequireCounter("in:flip", 3000)
 	r.RequireCounter("in:valid-lib", 10)
-	r.RequireCounter("accepted", 60)
+	r.RequireCounter("accepted", 50)
 }
